@@ -692,6 +692,7 @@ pub fn batch_main(b: &BatchArgs) -> BatchOut {
             }
             sc
         };
+        start_minimise_budget();
         out.violations.push(minimise_and_store(f, &c, &b.replay_dir, &b.work_dir, Some(&regen)));
     }
     out.wall_s = t0.elapsed().as_secs_f64();
@@ -705,19 +706,41 @@ fn shrink_budget_secs() -> u64 {
     std::env::var("A5SIM_SHRINK_SECS").ok().and_then(|s| s.parse().ok()).unwrap_or(90)
 }
 
+/// End of the time a batch may spend on confirming and minimising what it found (raw clock, ns;
+/// 0 = not set). Each fresh-process replay can take minutes when a violation needs a worker's
+/// whole history; past this point violations are still reported, with the replay file as
+/// recorded, but no longer shrunk.
+static MINIMISE_DEADLINE_NS: std::sync::atomic::AtomicI64 = std::sync::atomic::AtomicI64::new(0);
+
+pub fn start_minimise_budget() {
+    let secs: i64 = std::env::var("A5SIM_MINIMISE_TOTAL_SECS").ok().and_then(|s| s.parse().ok()).unwrap_or(600);
+    // (set once per process: at the first violation)
+    let _ = MINIMISE_DEADLINE_NS.compare_exchange(0, crate::procs::raw_now_ns() + secs * 1_000_000_000, std::sync::atomic::Ordering::Relaxed, std::sync::atomic::Ordering::Relaxed);
+}
+
+fn minimise_budget_left() -> bool {
+    let d = MINIMISE_DEADLINE_NS.load(std::sync::atomic::Ordering::Relaxed);
+    d == 0 || crate::procs::raw_now_ns() < d
+}
+
 pub fn minimise_and_store(f: ReplayFile, cand_path: &str, replay_dir: &str, work_dir: &str, regen: Option<&dyn Fn(u64, bool) -> Scenario>) -> ViolationReport {
     let mut f = f;
     let target = f.violation.clone().unwrap();
     let steps_before: u64 = f.scenarios.iter().map(|s| s.total_ops()).sum();
     let seed = f.scenarios.last().map(|s| s.seed).unwrap_or(0);
     let final_path = format!("{}/C13-{}-{}-{:016x}.json", replay_dir, f.engine, f.profile, seed);
+    if !minimise_budget_left() {
+        f.note = format!("{}; stored as recorded: the batch's budget for confirming and minimising was used up by earlier violations", f.note);
+        save(&final_path, &f);
+        return ViolationReport { replay: final_path, line: target.line(), minimised: false, replay_confirmed: false, steps_before, steps_after: steps_before, shrink_evals: 0 };
+    }
     // does the unminimised candidate reproduce strictly in a fresh process?
     let mut strict_ok = matches!(exec_file_fresh(cand_path, "strict"), Ok(o) if o.violation.as_ref().map(|v| v.same_class(&target)).unwrap_or(false));
     if !strict_ok {
         // The violation does not show when the scenario runs alone in a fresh process: it depends
         // on what the worker process did before (process-wide state). Rebuild the worker's whole
         // history up to and including the failing scenario; that sequence is the replay unit.
-        if let (Some((from, idx, no_yield)), Some(regen)) = (f.origin, regen) {
+        if let (Some((from, idx, no_yield)), Some(regen), true) = (f.origin, regen, minimise_budget_left()) {
             let mut seq = f.clone();
             seq.scenarios = (from..=idx).map(|i| regen(i, no_yield)).collect();
             seq.decisions = vec![Vec::new(); seq.scenarios.len()];
@@ -737,7 +760,7 @@ pub fn minimise_and_store(f: ReplayFile, cand_path: &str, replay_dir: &str, work
         }
     }
     let mut sh = Shrinker { target: target.clone(), tmp_path: format!("{}/shrink-tmp-{:016x}.json", work_dir, seed), evals: 0, log: Vec::new(), schedule_sensitive: false, deadline: Some(Instant::now() + std::time::Duration::from_secs(shrink_budget_secs())) };
-    let min = sh.shrink(f.clone());
+    let min = if minimise_budget_left() { sh.shrink(f.clone()) } else { f.clone() };
     let steps_after: u64 = min.scenarios.iter().map(|s| s.total_ops()).sum();
     save(&final_path, &min);
     let confirmed = matches!(exec_file_fresh(&final_path, "strict"), Ok(o) if o.violation.as_ref().map(|v| v.same_class(&sh.target)).unwrap_or(false) && o.harness_error.is_none());
@@ -1161,6 +1184,7 @@ pub fn worlds_main(b: &WorldArgs) -> WorldsOut {
                             save(&path, &f);
                             let alone = matches!(exec_file_fresh(&path, "strict"), Ok(o2) if o2.violation.as_ref().map(|x| x.same_class(v)).unwrap_or(false));
                             if alone {
+                                start_minimise_budget();
                                 out.violations.push(minimise_and_store(f, &path, &b.replay_dir, &b.work_dir, None));
                             } else {
                                 // needs what earlier worlds of its chain left on disk: the chain is the replay unit
